@@ -58,7 +58,7 @@ theorem sem_stage (L : FnLayout) (z : Nat → Bool) (k : Nat)
   rw [e]
   simp only [sem_append, sem_single, sem_optX, denote_ccx, fnU]
   cases z k <;> cases hb0 : b (L.xw k) <;> cases hb1 : b (L.gw (k - 2)) <;>
-    simp [flipBit_eq, flipBit_ne, hb0, hb1, flipBit_flipBit, flipBit3, hxg, hxt, Ne.symm hxg]
+    simp [flipBit_eq, flipBit_ne, hb0, hb1, flipBit_flipBit, flipBit3, hxt, Ne.symm hxg]
 
 /-! ### Compute / uncompute sweeps as relabellings -/
 
